@@ -65,6 +65,46 @@ class Check:
         if text not in self.trusted:
             self.trusted.append(text)
 
+    # ---- textbook facts machine-checked in Lean (lean/TextbookFacts.lean, compiled by bin/setup -> .work/lean_facts.json) ----------
+    def _lean_record(self):
+        if getattr(self, '_lean', None) is None:
+            import hashlib
+            self._lean = {'ok': False}
+            try:
+                with open(os.path.join(HERE, 'lean', 'TextbookFacts.lean'), 'rb') as f:
+                    sha = hashlib.sha256(f.read()).hexdigest()
+                with open(os.path.join(HERE, '.work', 'lean_facts.json')) as f:
+                    rec = json.load(f)
+                if rec.get('sha256') == sha and rec.get('ok'):
+                    self._lean = rec
+            except Exception:  # noqa: BLE001
+                pass
+        return self._lean
+
+    def textbook(self, text, theorems):
+        """A fact about sin/cos/atan2/exp/... that the contract uses as an (instantiated) axiom.  If the named Lean theorems were
+        machine-checked on this machine the fact is recorded as such, otherwise it is listed as trusted/assumed."""
+        rec = self._lean_record()
+        ok = rec.get('ok') and all(t in rec.get('theorems', []) for t in theorems)
+        self.extra.setdefault('lean_textbook_facts', {'file': 'lean/TextbookFacts.lean', 'checked': bool(rec.get('ok')), 'sha256': rec.get('sha256'),
+                                                      'lean': rec.get('lean'), 'cited': []})
+        for t in theorems:
+            if t not in self.extra['lean_textbook_facts']['cited']:
+                self.extra['lean_textbook_facts']['cited'].append(t)
+        self.trust(text + (f' [machine-checked in Lean/Mathlib: {", ".join(theorems)}]' if ok else f' [assumed; Lean theorems {", ".join(theorems)} not checked on this machine]'))
+        return bool(ok)
+
+    def lean_obligation(self, name, theorem, statement):
+        """A clause that IS a Lean theorem (e.g. a normalisation integral): discharged by back end `lean` if checked, an assumption otherwise."""
+        rec = self._lean_record()
+        if rec.get('ok') and theorem in rec.get('theorems', []):
+            o = self.add(decided(name, True, detail=f'Lean theorem {theorem}: {statement}'))
+            o.backend = 'lean'
+            self.textbook(statement, [theorem])
+            return True
+        self.assume(f'{statement} (classical; Lean theorem {theorem} not checked on this machine)')
+        return False
+
     def add(self, o: Obligation):
         o.name = f'{self.pid}/{o.name}' if not o.name.startswith(self.pid + '/') else o.name
         self.obls.append(o)
@@ -148,6 +188,8 @@ class Check:
             o.timeout = o.timeout * 3
         if retry:
             solve.discharge(self.obls, log=log)
+        if self.tier == 'thorough':
+            self.extra['second_solver'] = solve.cross_check(self.obls)
         # canaries: must be refuted
         for o in self.obls:
             if o.kind == 'canary':
